@@ -230,9 +230,9 @@ func TestVerifC23(t *testing.T) {
 	if err != nil {
 		r.Fatalf("cannot load the TLC state graph: %v", err)
 	}
-	depth := 4
+	depth := 5
 	if r.Thorough() {
-		depth = 6
+		depth = 7
 	}
 	r.Rule(fmt.Sprintf("TLC checks models/BGPFSM.tla (invariants on all %d model states, %d edges) and dumps its labelled graph; the real FSM is explored by BFS over all event histories up to depth %d from two roots per "+
 		"session configuration, and every implementation state change (from the FSM's state-change log, with connection/attachment sampled at that moment) is checked to be an edge of the model graph", m.nNodes, m.nEdges, depth))
